@@ -3,6 +3,7 @@ import DelbModel.Lemmas.XPathEval.DocOrder
 import DelbModel.Lemmas.XPathEval.Axes
 import DelbModel.Lemmas.XPathEval.Steps
 import DelbModel.Lemmas.XPathEval.Denote
+import DelbModel.Lemmas.XPathEval.PredSpec
 /-!
 # C06 helper lemmas
 
@@ -14,4 +15,6 @@ import DelbModel.Lemmas.XPathEval.Denote
   `addNew`, `evalStep`, `evalPaths`, `insertPath` / `sortPaths`
 * `XPathEval/Denote.lean` — the mechanism model against the specification `Model/XPath/Spec.lean`
   (axes, node tests, predicates, steps, paths, expressions; when nothing raises)
+* `XPathEval/PredSpec.lean` — the mechanism's predicate values (`evalExpr`, `truthy`) against the XPath 1.0
+  value semantics `Model/XPath/PredSpec.lean`, outside the situations marked by `PredSafe`
 -/
